@@ -27,8 +27,16 @@ func VerifC06_Dec(idx int) {
 	verifAssert(size == s.size, s.name+": registered size == spec size")
 	err = p.UnmarshalBinary(verifCopy(data))
 	verifAssert(err == nil, s.name+": decoding spec-sized bytes succeeds")
+	c06CheckDecoded(s, p, data)
+	verifReach("done")
+}
+
+func c06CheckDecoded(s *mSpec, p MACCommandPayload, data []byte) {
 	got, ok := rdPayload(s, p)
 	verifAssert(ok, s.name+": registry constructs the payload type of this command")
+	if !ok {
+		return
+	}
 	x := leInt(data)
 	want := s.unpack(x)
 	rfuSet := !s.rfuClear(x)
@@ -46,6 +54,43 @@ func VerifC06_Dec(idx int) {
 			verifAssertKnown("C06-rfu-"+s.name, rfuSet, got[i] == want[i], label)
 		}
 	}
+}
+
+// DecStream: the FOpts / port-0 FRMPayload field is the plain concatenation CID | payload | CID | payload ...; two
+// spec-sized commands of one direction with arbitrary payload bytes, laid out by the table, must decode into exactly
+// those two commands with the table's field values - the decoding of the first must not disturb the bytes of the
+// second (the stream sits inside a longer buffer, as FOpts sits inside a received frame).
+func VerifC06_DecStream(i1, i2 int) {
+	s1, s2 := &macSpecs[i1], &macSpecs[i2]
+	d1 := verifNondetBytes("data1", s1.size)
+	d2 := verifNondetBytes("data2", s2.size)
+	tail := verifNondetBytes("tail", 2)
+	var frame []byte
+	frame = append(frame, byte(s1.cid))
+	frame = append(frame, d1...)
+	frame = append(frame, byte(s2.cid))
+	frame = append(frame, d2...)
+	L := len(frame)
+	frame = append(frame, tail...)
+	out, err := decodeDataPayloadToMACCommands(s1.uplink, []Payload{&DataPayload{Bytes: frame[:L]}})
+	verifAssert(err == nil, "stream of two spec-sized commands decodes")
+	verifAssert(len(out) == 2, "stream of two spec-sized commands decodes into two commands")
+	if len(out) != 2 {
+		return
+	}
+	for k, s := range []*mSpec{s1, s2} {
+		mc, ok := out[k].(*MACCommand)
+		verifAssert(ok, "stream element is a MACCommand")
+		if !ok {
+			return
+		}
+		verifAssert(mc.CID == s.cid, s.name+": CID at its position in the stream")
+		verifAssert(mc.Payload != nil, s.name+": decoded with its payload")
+		if mc.Payload != nil {
+			c06CheckDecoded(s, mc.Payload, [][]byte{d1, d2}[k])
+		}
+	}
+	verifAssert(verifAnd(frame[L] == tail[0], frame[L+1] == tail[1]), "decoding a command stream leaves the bytes behind it alone")
 	verifReach("done")
 }
 
